@@ -202,3 +202,30 @@ Definition w_bare_op : operation :=
 Theorem bare_inline_fragment_converts :
   exists r, generate_types w_schema w_cfg [] [[LOther; LOther; LOther; LOther; LOther]] [w_bare_op] = Ok r.
 Proof. eexists. vm_compute. reflexivity. Qed.
+
+(* ================= the line index of parsePrecedingComment ================= *)
+(* query Q {
+     a: u { id }
+     b: u { id }
+   }
+   The parser counts four lines (it ends a line at CR, LF or CRLF).  parsePrecedingComment split
+   the source at LF only: a file whose line ends are bare CRs is ONE line to it, and the lines
+   above the field `b` (line 3) are sourceLines[1], sourceLines[0]: index 1 is out of range. *)
+Definition w_cr_op : operation :=
+  {| op_kind := 0; op_name := b "Q"; op_extra := 0;
+     op_sel := [SField (b "a") (b "u") (TNamed (b "U") true) (b "Query") 0
+                  [SField (b "id") (b "id") (TNamed (b "ID") true) (b "U") 0 [] 2] 2;
+                SField (b "b") (b "u") (TNamed (b "U") true) (b "Query") 0
+                  [SField (b "id") (b "id") (TNamed (b "ID") true) (b "U") 0 [] 3] 3];
+     op_line := 1; op_src := 0; op_vars := [] |}.
+Definition w_cr_srcs : list (list lkind) := [[LOther]].
+Definition w_lf_srcs : list (list lkind) := [[LOther; LOther; LOther; LOther]].
+
+Theorem line_index_out_of_range_panics :
+  generate_types w_schema w_cfg [] w_cr_srcs [w_cr_op] = Panic (b "index out of range: sourceLines").
+Proof. vm_compute. reflexivity. Qed.
+
+(* the same operation against the source split into its four lines is converted *)
+Theorem line_index_in_range_converts :
+  exists r, generate_types w_schema w_cfg [] w_lf_srcs [w_cr_op] = Ok r.
+Proof. eexists. vm_compute. reflexivity. Qed.
